@@ -19,6 +19,13 @@ SubFew4    == {<<0, DFLT>>, <<0, 1>>, <<1, 1>>, <<1, NPOS>>, <<2, 0>>, <<3, 2>>,
 Pos8       == {0, 1, 2, 4, 7, 8, 9, 10, NPOS}
 Lits8      == {<<>>, <<1>>, <<1, 2>>, <<2, 0, 1>>, <<1, 2, 1, 2, 1>>, <<2, 2, 1, 1, 2, 2, 1, 1>>, <<1, 2, 1, 2, 1, 2, 1, 2, 1>>}
 SubFew8    == {<<0, DFLT>>, <<0, 1>>, <<1, 3>>, <<1, NPOS>>, <<2, 0>>, <<5, 2>>, <<8, 1>>, <<9, 0>>, <<10, 1>>, <<NPOS, 1>>}
+(* round 3: simulation walks at N = 5 and N = 7 *)
+Pos5       == {0, 1, 2, 3, 4, 5, 6, 7, NPOS}
+Lits5      == {<<>>, <<1>>, <<1, 2>>, <<2, 0, 1>>, <<1, 2, 1, 2, 1>>, <<2, 2, 1, 1, 2, 2>>}
+SubFew5    == {<<0, DFLT>>, <<0, 1>>, <<1, 2>>, <<1, NPOS>>, <<2, 0>>, <<4, 2>>, <<5, 1>>, <<6, 0>>, <<7, 1>>, <<NPOS, 1>>}
+Pos7       == {0, 1, 2, 3, 6, 7, 8, 9, NPOS}
+Lits7      == {<<>>, <<1>>, <<1, 2>>, <<2, 0, 1>>, <<1, 2, 1, 2, 1>>, <<2, 2, 1, 1, 2, 2, 1>>, <<1, 2, 1, 2, 1, 2, 1, 2>>}
+SubFew7    == {<<0, DFLT>>, <<0, 1>>, <<1, 3>>, <<1, NPOS>>, <<2, 0>>, <<5, 2>>, <<7, 1>>, <<8, 0>>, <<9, 1>>, <<NPOS, 1>>}
 SubAll3    == Pos3 \X (Pos3 \cup {DFLT})
 SubFew     == {<<0, DFLT>>, <<0, 1>>, <<1, 1>>, <<1, NPOS>>, <<2, 0>>, <<3, 2>>, <<4, 1>>, <<5, 0>>, <<NPOS, 1>>}
 LitsFew    == {<<>>, <<1>>, <<2, 0, 1>>}
@@ -28,11 +35,12 @@ OtherNul   == {<<>>, <<2>>, <<2, 1>>, <<2, 0>>, <<1, 0, 2>>, <<2, 2, 1>>}
 OtherNoNul == {<<>>, <<2>>, <<2, 1>>, <<2, 2, 1>>}
 OtherOne   == {<<2, 1>>}
 AllClasses == {"ctor", "pair", "assign", "access", "size", "sub", "insert", "erase", "append", "compare", "replace",
-               "find", "rel", "concat", "io", "alias"}
+               "find", "rel", "concat", "io", "alias", "iter"}
 AllClassesOv == AllClasses \cup {"overlay"}
 Unary      == AllClasses \ {"pair"}
 UnaryOv    == Unary \cup {"overlay"}
 PairOnly   == {"pair", "nav"}
+ExtOnly    == {"ext", "nav"}
 NoEmit     == {}
 AllOps     == {"CtorDefault", "CtorFill", "CtorSub", "CtorSeq", "Overlay", "AssignFill", "AssignSub", "AssignSeq", "At", "Index",
                "Front", "Back", "Write", "Iterate", "Clear", "PushBack", "PopBack", "Substr", "Copy", "Resize1", "Resize2",
